@@ -59,10 +59,8 @@ func EnvNames(tier string) []string {
 	// ckks-prec: the ckks encoder (stand-alone and inside the evaluator) in arbitrary precision (128 bits):
 	// big.Float / bignum.Complex scratch buffers and the embedArbitrary / big-number FFT code paths
 	// ckks-ci: CKKS over the conjugate-invariant ring Z[X+X^-1]/(X^2N+1) (real slots only, NthRoot = 4N)
-	n := []string{"bgv", "bfv", "ckks", "rlwe", "rlwe-coef", "bgv-1p", "rlwe-pow2", "ckks-prec", "ckks-ci"}
-	if tier == "thorough" {
-		n = append(n, "ckks-1p")
-	}
+	n := []string{"bgv", "bfv", "ckks", "rlwe", "rlwe-coef", "bgv-1p", "rlwe-pow2", "ckks-prec", "ckks-ci", "ckks-1p"}
+	_ = tier // every environment is part of both tiers; the tiers differ in the depth of the receiver histories
 	return n
 }
 
